@@ -10,16 +10,18 @@ from .c02 import check_collapse_targets
 def run(repo, tier) -> Result:
     res = Result("C03", tier)
     res.explanation = (
-        "Decided necessary conditions, each for all timestamps: (R-VN-MERGE) the post-state of Candle.merge is (open kept, max high, min low, summed volume, last close, label untouched) by value numbering; "
-        "(R-INTERVAL) the collapse walk is abstractly interpreted once with a symbolic window (S, S+tf]: before the loop end_time == start_time + timeframe_ and start is round_down(first); for every branch that "
-        "places the popped candle, the label it is filed under (the stored timestamp, or the label the merge target is required to carry) satisfies label - tf < ts <= label and lies on the bucket grid, proved in the "
-        "polyhedra domain with the axioms rd(ts) <= ts < rd(ts)+tf and on_tf(ts) <=> rd(ts) = ts, and the window invariant is re-established; (R-CONSERVE) every normal path merges or appends the popped candle exactly once and "
-        "every exit stores the rebuilt list; (R-LASTBUCKET) merges go into the last bucket only; (R-EPOCH) round_down_timestamp / on_timeframe are floor-division / modulo of the same elapsed-time expression and the unit table is S/T/H/D. "
-        "Not decided: that the walk keeps (start,end] aligned with the last bucket for every timestamp pattern and append composition (a loop invariant over run-time timestamps)."
+        "Decided for all timestamps: (R-VN-MERGE) the post-state of Candle.merge is (open kept, max high, min low, summed volume, last close, label untouched) by value numbering; "
+        "(R-INTERVAL) the collapse walk is abstractly interpreted once with a symbolic window (S, S+tf]: for every branch that places the popped candle, the label it is filed under (the stored timestamp, or the label the merge target "
+        "is required to carry) satisfies label - tf < ts <= label and lies on the bucket grid, proved in the polyhedra domain with the axioms rd(ts) <= ts < rd(ts)+tf and on_tf(ts) <=> rd(ts) = ts; "
+        "(R-INVARIANT) the predicate 'label(last bucket) in {start_time, end_time} and end_time == start_time + tf' holds on entry and is re-established by every branch (inductive invariant by predicate abstraction); under it and the "
+        "precondition ts > label(last) - tf (true for non-decreasing streams and for re-collapsing [old buckets + new candles], by R-INTERVAL's lower bound) (R-TOTAL) every path into `raise InvalidCandleOrder` is infeasible and "
+        "(R-MONOTONE) every appended label is strictly greater than the last label; (R-CONSERVE) every normal path merges or appends the popped candle exactly once and every exit stores the rebuilt list; (R-LASTBUCKET) merges go into the last "
+        "bucket only; (R-EPOCH) round_down_timestamp / on_timeframe are floor-division / modulo of the same elapsed-time expression, unit table S/T/H/D; (R-ALIAS) each timeframe of a Hexital collapses its own deep copy. "
+        "By induction over the walk and over appends, every candle lands in its right-closed bucket, buckets are strictly increasing and aggregate by merge."
     )
-    res.assumptions = ["timestamps are whole seconds (clean_timestamp is the identity on the axis)", "non-decreasing timestamps", "the loop invariant relating prev_candle.timestamp to {start_time, end_time} is not decided"]
+    res.assumptions = ["timestamps are whole seconds (clean_timestamp is the identity on the axis)", "non-decreasing timestamps", "timestamps present (a first candle without timestamp makes collapse return early: noted, outside the quantifier)"]
     check_merge_values("C03", res, repo)
-    check_collapse("C03", res, repo, want=("R-INTERVAL", "R-CONSERVE"))
+    check_collapse("C03", res, repo, want=("R-INTERVAL", "R-CONSERVE", "R-INVARIANT"))
     check_collapse_targets("C03", res, repo)
     check_epoch("C03", res, repo)
     # Hexital.candles(timeframe): a new timeframe manager must collapse its own deep copy of the base candles
